@@ -101,6 +101,11 @@ func (s *scanner) number(start int, re *regexp.Regexp, base int) escapedRune {
 	if err != nil {
 		return escapedRune{Pos: start}
 	}
+	// Only Unicode scalar values are characters of a string: anything above maxCodepoint and the
+	// surrogate range would silently be written as U+FFFD and address the entry keyed "�".
+	if n > maxCodepoint || (n >= 0xD800 && n <= 0xDFFF) {
+		return escapedRune{Pos: start}
+	}
 	return escapedRune{Pos: start, Rune: rune(n), Valid: true}
 }
 
